@@ -152,8 +152,16 @@ PROPERTIES['C01'] = {
                   '(second from the trivia alphabet), whole texts <= 3 code points; both attribution modes; parse targets File and the template\'s own class.',
 }
 
-NOT_APPLICABLE = {
-    'C16': 'The property is about the operating system and C io layer behind editor.py (text-mode newline translation, pathlib/glob/'
-           'os.unlink/os.makedirs, mtimes): none of it can be executed symbolically by CrossHair or encoded for z3, CrossHair forbids '
-           'file writes during analysis, and an in-memory filesystem model would decide the property of the model, not of the code.',
+PROPERTIES['C16'] = {
+    'modules': ['harness.c16_editor'], 'budget': {'quick': 1500, 'thorough': 3300},
+    'level_text': 'Bounded symbolic execution of the REAL editor (edit_file / edit_file_recursive with the real parser, printer, pathlib, glob algorithm and '
+                  'os.path functions) on an in-memory POSIX file system whose system calls follow their documented contract (text-mode newline translation '
+                  'included): (a) solver-enumerated scenarios - include graph x entry-path spelling x line-ending pattern x subset edited x entry removed x entry '
+                  'added/replaced x body raising - against an oracle computed from the initial disk contents; (b) the file TEXT itself symbolic (one free Unicode '
+                  'code point inserted on disk, through modelled read, real lexer/parser, edit, print, modelled write). Counterexamples are replayed on a real directory.',
+    'level_note': 'Trusted: CrossHair, z3, symre, and the file-system model (validated against a real directory on every run). 10 include graphs (nesting, globs, '
+                  'recursive globs, cycles, diamond, respelled and overlapping includes), 7 spellings of the entry path, 5 line-ending patterns; one entry removed/added '
+                  'per block; one free character per file. Symlinks, permissions, encodings other than UTF-8 and I/O failures are outside the claim.',
 }
+
+NOT_APPLICABLE = {}
